@@ -805,6 +805,21 @@ func c17r4(c *an.Ctx) {
 		for _, st := range sw.Body.List {
 			for _, e := range st.(*ast.CaseClause).List {
 				src := exprString(e)
+				ast.Inspect(e, func(n2 ast.Node) bool {
+					if id, isId := n2.(*ast.Ident); isId {
+						ast.Inspect(ro.Body, func(n3 ast.Node) bool {
+							if as2, isAs := n3.(*ast.AssignStmt); isAs && len(as2.Lhs) == len(as2.Rhs) {
+								for i2, lh := range as2.Lhs {
+									if li, ok2 := lh.(*ast.Ident); ok2 && li.Name == id.Name {
+										src += " " + exprString(as2.Rhs[i2])
+									}
+								}
+							}
+							return true
+						})
+					}
+					return true
+				})
 				if strings.Contains(src, ".NumIn()") || strings.Contains(src, ".NumOut()") {
 					counts++
 					break
@@ -867,6 +882,19 @@ func c17r4(c *an.Ctx) {
 					k = int(v)
 				}
 				l := exprString(be.X)
+				// a local that holds the count: numOut := mt.NumOut()
+				if id, isId := be.X.(*ast.Ident); isId {
+					ast.Inspect(ro.Body, func(n2 ast.Node) bool {
+						if as2, isAs := n2.(*ast.AssignStmt); isAs && len(as2.Lhs) == len(as2.Rhs) {
+							for i2, lh := range as2.Lhs {
+								if li, ok2 := lh.(*ast.Ident); ok2 && li.Name == id.Name {
+									l = exprString(as2.Rhs[i2])
+								}
+							}
+						}
+						return true
+					})
+				}
 				switch {
 				case k >= 0 && strings.HasSuffix(l, ".NumOut()"):
 					mc.numOut = k
